@@ -199,6 +199,63 @@ def roundtrip(run, module, cls, kinds=None, height=True, replay_cls=None, case=N
     run.add(static(f"{fq}/round_trip_paths", n_ok > 0, f"{n_ok} print/parse path combination(s) analysed", fn=fq))
 
 
+def verify_rule_weight(run):
+    """Rule.text prints `if A then C [with w]`; Rule.parse (C16) reads the weight back as to_float(token) or 1.0 when absent: the printed text is a
+    fixed point and the weight is restored unless it is within the tolerance of 1"""
+    src = run.src
+    fq = "rule.Rule.text"
+    fn = src.func("rule", "Rule.text", "getter")
+    run.under_contract("rule", "Rule.text", fn)
+    rp = RP("fll-text-not-fixed-point")
+    A, C = Tok(z3.Const("antecedent_text", Str)), Tok(z3.Const("consequent_text", Str))
+    w, wf = xr.sym("weight")
+
+    def rule_obj(weight):
+        return Obj("Rule", {"weight": weight, "antecedent": Obj("Antecedent", {"text": A}), "consequent": Obj("Consequent", {"text": C})})
+
+    def run_text(weight, pc, shared=None):
+        ex = TokExec(src, "rule", xr.Ax(), selfobj=rule_obj(weight))
+        if shared is not None:
+            ex.axioms, ex.seen_fmt = shared.axioms, shared.seen_fmt
+        return ex, ex.run(fn, {"self": ex.selfobj}, pc=list(pc))
+    try:
+        ex, outs = run_text(Num(w, False, True), [wf, canon(x2xr(w))])
+    except (Unsupported, MultiReturn) as ex_:
+        run.add(undecided(f"{fq}/subset", f"outside the verified subset: {ex_}", fn=fq, meta=rp)); return
+    from pyvc.tokexec import pf
+    from pyvc.heap import strc
+    n_ok = 0
+    for k, (kind, val, p1) in enumerate(outs):
+        if kind != "return" or not isinstance(val, Text):
+            run.add(Obl(f"{fq}/returns_text[path{k}]", p1.pc + ex.axioms, z3.BoolVal(False), fn=fq, meta=rp)); continue
+        toks = val.toks
+        shape_ok = len(toks) in (4, 6) and toks[1] is A and toks[3] is C
+        run.add(static(f"{fq}/layout[path{k}]", shape_ok, f"{len(toks)} tokens: if <antecedent> then <consequent>" + (" with <weight>" if len(toks) == 6 else ""), fn=fq, meta=rp))
+        if not shape_ok:
+            continue
+        kw = [toks[0].t == strc("if"), toks[2].t == strc("then")] + ([toks[4].t == strc("with")] if len(toks) == 6 else [])
+        run.add(Obl(f"{fq}/keywords[path{k}]", p1.pc + ex.axioms + str_distinct(), z3.And(*kw), fn=fq, meta=rp))
+        # what Rule.parse stores (C16): the float of the token after `with`, or 1.0
+        w2 = Num(xr2x(pf(toks[5].t)), False, True) if len(toks) == 6 else Num(xr.const(1.0), False, True)
+        tw = x2xr(w)
+        ex.ax_fmt(tw)
+        hv = Num(xr2x(rnd(tw)), False, True)
+        close = ex.boo(ex.ev(Path({"h": hv}, []), ast.parse("Op.is_close(h, 1.0)").body[0].value)).b
+        t2 = x2xr(w2.x)
+        run.add(Obl(f"{fq}/weight_restored_unless_within_tolerance_of_1[path{k}]", p1.pc + ex.axioms + str_distinct(), z3.If(close, z3.Or(t2 == x2xr(xr.const(1.0)), t2 == rnd(tw)), t2 == rnd(tw)), fn=fq, meta=rp))
+        try:
+            ex3, outs3 = run_text(w2, p1.pc, shared=ex)
+        except (Unsupported, MultiReturn) as ex_:
+            run.add(undecided(f"{fq}/subset.second[path{k}]", f"{ex_}", fn=fq, meta=rp)); continue
+        for k3, (kind3, val3, p3) in enumerate(outs3):
+            if kind3 != "return" or not isinstance(val3, Text):
+                run.add(Obl(f"{fq}/print_again.no_raise[path{k}.{k3}]", p3.pc + ex.axioms, z3.BoolVal(False), fn=fq, meta=rp)); continue
+            goal = z3.And(*[a.t == b.t for a, b in zip(val3.toks, toks)]) if len(val3.toks) == len(toks) else z3.BoolVal(False)
+            run.add(Obl(f"{fq}/print_again_gives_the_same_text[path{k}.{k3}]", p3.pc + ex.axioms + str_distinct(), goal, fn=fq, meta=rp))
+        n_ok += 1
+    run.add(static(f"{fq}/paths", n_ok == 2, f"{n_ok} printing path(s) (with and without the weight)", fn=fq))
+
+
 def build(run):
     run.assume("A-FMT", "A-STR", "A-SET", "A-PY", "A-MSG", "A-NP")
     src = run.src
@@ -226,6 +283,7 @@ def build(run):
             roundtrip(run, "defuzzifier", c, kinds=kinds, height=False)
         except Unsupported as ex_:
             run.add(undecided(f"defuzzifier.{c}/subset", f"outside the verified subset: {ex_}", fn=f"defuzzifier.{c}", meta=RP(f"fll-component:{c}")))
+    verify_rule_weight(run)
     b = 200 if run.tier == "quick" else 2000
     run.bounded("exporter.FllExporter+importer.FllImporter/round_trip.runtime", N_, "replay_fll_roundtrip", [dict(seed=run.seed, budget=b)],
                 bound=f"every registered term/norm/defuzzifier/activation/hedge on its own at decimals 1..9; {b} generated engines forming a covering array (every class, flags both ways, descriptions, infinite ranges, NaN defaults, non-unit heights and weights) at two decimals settings each: text fixed point, structural equality, exact outputs under the representability hypothesis; 61 shipped examples verbatim and reformatted + hand-written texts: one import/export cycle is a fixed point")
